@@ -783,16 +783,32 @@ func rulePagingElements(r *core.Run, id string, typesToCheck ...string) {
 		}
 		for fld, want := range pagingElements[tn] {
 			found := false
-			for i := 0; i < st.NumFields(); i++ {
-				if st.Field(i).Name() != fld {
-					continue
+			// encoding/xml flattens embedded structs without a tag: look through them
+			var visit func(st *types.Struct, d int)
+			visit = func(st *types.Struct, d int) {
+				for i := 0; i < st.NumFields(); i++ {
+					f := st.Field(i)
+					if f.Embedded() && d < 3 && reflectTag(st.Tag(i), "xml") == "" {
+						t := f.Type()
+						if pt, ok := t.Underlying().(*types.Pointer); ok {
+							t = pt.Elem()
+						}
+						if es, ok := t.Underlying().(*types.Struct); ok {
+							visit(es, d+1)
+						}
+						continue
+					}
+					if f.Name() != fld {
+						continue
+					}
+					found = true
+					n++
+					tag := reflectTag(st.Tag(i), "xml")
+					name := strings.Split(tag, ",")[0]
+					r.Check(name == want, id, key("gofakes3."+tn, "element name", fld), r.P.Pos(f.Pos()), "<"+want+">", "the field "+tn+"."+fld+" is serialised as <"+name+"> instead of <"+want+">: clients do not find the continuation marker and page forever (or stop early)")
 				}
-				found = true
-				n++
-				tag := reflectTag(st.Tag(i), "xml")
-				name := strings.Split(tag, ",")[0]
-				r.Check(name == want, id, key("gofakes3."+tn, "element name", fld), r.P.Pos(st.Field(i).Pos()), "<"+want+">", "the field "+tn+"."+fld+" is serialised as <"+name+"> instead of <"+want+">: clients do not find the continuation marker and page forever (or stop early)")
 			}
+			visit(st, 0)
 			if !found {
 				r.Unresolved("%s: field %s.%s not found", id, tn, fld)
 			}
